@@ -260,6 +260,10 @@ def run(ctx):
               msg=f"task.wait_until in the new subsystem rejects the documented argument(s) {missing} (ValueError: Unknown arguments): the legacy implementation - and docs/reference.rst - "
               f"name them; accepted are {sorted(accepted)}", key="wait_until argument names", node=wu, rel="decorator.py")
 
+    ctx.rule("R15.18", "legacy wait_until: a refused webhook / MQTT / event registration leaves the shared subscriber table as it was (later waits on that id still register)", floor=3)
+    from .c08 import refused_registration_table
+    refused_registration_table(ctx, program, "R15.18")
+
     ctx.rule("R15.6", "legacy wait_until: a notification received during a pending state_hold is never taken for the hold's expiry (scripted histories)", floor=7)
     from .c05 import legacy_hold_rules
     legacy_hold_rules(ctx, program, "R15.6", uids=(LEGACY,))
